@@ -6,6 +6,7 @@ SegmentTrace.tla (validation of segments recorded from the real codec).
 import json
 import time
 
+import codecseq
 from common import (Infra, Scratch, Verdict, build_harness, harness_json, log, marker_json, require_ok, run_tlc, seed,
                     write_evidence)
 
@@ -42,8 +43,13 @@ def run(tier):
                         dict(check="c06-trace", event=e))
         log("c06: %d evaluations (%d vectors, %d sweep encodes), %d events validated by TLC, %d rejected; %d harness violations" % (
             rep["evaluations"], len(vecs), rep["extra"]["sweep_jobs"], out[0]["n"], len(out[0]["bad"]), len(rep["violations"])))
+        # one codec instance encoding a sequence of segments (some falling back, some to a writer that breaks): CodecSeq.tla
+        cs = codecseq.run_codecseq(s, h, tier, PROP)
+        for x in cs["violations"]:
+            v.violation(x["sig"], x["detail"], x["replay"])
         unlisted = v.finish()
-        cov = dict(evaluations=rep["evaluations"], distinct_nontrivial=rep["distinct"],
+        cov = dict(evaluations=rep["evaluations"] + cs["histories"], distinct_nontrivial=rep["distinct"] + cs["distinct_prefixes"],
+                   codec_histories={k: cs[k] for k in cs if k != "violations"},
                    rule="(V) every vector TLC computes from Segment.tla (header+CRC-24 at every length boundary, complete short segments "
                         "for 5 content classes x lengths, raw-fallback segments, oversize refusal) compared byte-for-byte with the real "
                         "encoder and decoded by the real decoder; (sweep) payload lengths 0..131071 (all in thorough, stride 257 + "
